@@ -64,6 +64,28 @@ pub fn features() -> Vec<gherkin::Feature> {
     features_t(false)
 }
 
+fn outline_rows(outline_tags: usize, ex1: usize, ex2: usize) -> Vec<gherkin::Scenario> {
+    use cucumber::feature::Ext as _;
+    let line = |ind: &str, k: usize| -> String {
+        let t = tagset(k);
+        if t.is_empty() {
+            String::new()
+        } else {
+            format!("{ind}{}\n", t.iter().map(|x| format!("@{x}")).collect::<Vec<_>>().join(" "))
+        }
+    };
+    let text = format!(
+        "Feature: o\n{}  Scenario Outline: gamma <v>\n    Given step <v>\n{}    Examples:\n      | v |\n      | 1 |\n{}    Examples:\n      | v |\n      | 2 |\n",
+        line("  ", outline_tags),
+        line("    ", ex1),
+        line("    ", ex2),
+    );
+    let f = gherkin::Feature::parse(&text, gherkin::GherkinEnv::default()).expect("outline feature");
+    let f = f.expand_examples().expect("expansion");
+    assert_eq!(f.scenarios.len(), 2);
+    f.scenarios
+}
+
 /// Thorough: all four tag sets on feature and rule as well.
 pub fn features_t(thorough: bool) -> Vec<gherkin::Feature> {
     let mut out = Vec::new();
@@ -101,6 +123,12 @@ pub fn features_t(thorough: bool) -> Vec<gherkin::Feature> {
                         f.rules[1].scenarios[1].name = NAMES[3].into();
                         f.rules[1].scenarios[2].name = NAMES[(s1 + s3) % 4].into();
                         f.rules[2].scenarios[0].name = NAMES[(s1 + 1) % 4].into();
+                        // rows of an outline with two differently tagged `Examples:` blocks, as
+                        // `parser::Basic` hands them over (each row carries its own block's tags
+                        // and still knows all blocks of its outline)
+                        let rows = outline_rows(s2, s1, s3);
+                        f.scenarios.extend(rows.iter().cloned());
+                        f.rules[1].scenarios.extend(rows);
                         out.push(f);
                     }
                 }
